@@ -503,7 +503,25 @@ fn op_bulk(job: &Map<String, Value>) -> Value {
 		let peg = parse_one(code, "peg", false);
 		let ir_tree = ir.get("tree").and_then(Value::as_str);
 		let peg_tree = peg.get("tree").and_then(Value::as_str);
-		let (_file, errors) = jrsonnet_rowan_parser::parse(code);
+		// the rowan parser keeps no thread-local state: a panic is caught per text
+		let rowan = panic::catch_unwind(AssertUnwindSafe(|| {
+			let (file, errors) = jrsonnet_rowan_parser::parse(code);
+			use jrsonnet_rowan_parser::AstNode;
+			(errors.len() as i64, file.syntax().to_string() == code)
+		}));
+		let mut rowan_panic = None;
+		let (rowan_errors, lossless) = match rowan {
+			Ok(v) => v,
+			Err(_) => {
+				let p = LAST_PANIC
+					.lock()
+					.unwrap_or_else(|e| e.into_inner())
+					.take()
+					.unwrap_or_default();
+				rowan_panic = Some(json!({"msg": p.0, "site": p.1}));
+				(-1, true)
+			}
+		};
 		// lexer tiling
 		let mut pos = 0u32;
 		let mut tiling = true;
@@ -519,19 +537,18 @@ fn op_bulk(job: &Map<String, Value>) -> Value {
 		if pos as usize != code.len() {
 			tiling = false;
 		}
-		let lossless = {
-			use jrsonnet_rowan_parser::AstNode;
-			_file.syntax().to_string() == code
-		};
 		let mut rec = json!({
 			"ir": ir_tree.is_some(),
 			"peg": peg_tree.is_some(),
 			"same": match (ir_tree, peg_tree) { (Some(a), Some(b)) => a == b, (None, None) => true, _ => false },
 			"h": ir_tree.map(fnv),
-			"rowan": errors.len(),
+			"rowan": rowan_errors,
 			"tiling": tiling,
 			"lossless": lossless,
 		});
+		if let Some(p) = rowan_panic {
+			rec["rowan_panic"] = p;
+		}
 		if do_fmt {
 			let mut f = Vec::new();
 			for indent in [0u8, 2, 4] {
